@@ -20,7 +20,9 @@ import subprocess
 
 from vlib import core
 
-MODES = [("dyn", "probe/start"), ("static", "probe/start-static"), ("spie", "probe/start-spie")]
+MODES = [("dyn", "probe/start"), ("static", "probe/start-static"), ("spie", "probe/start-spie"),
+         # dynamic PIE, tiny-std without the aux/vdso features: the other cfg variant of tiny_start::start::resolve
+         ("dyn-noaux", "probe/start-noaux")]
 KEYS = [[], [65], [65, 66], [65, 66, 67], [65, 66, 67, 68], [66], [67]]
 LAUNCH = os.path.join(core.VERIF, "tools", "bin", "launch")
 BATCH = 1500
@@ -165,7 +167,7 @@ def to_record(c, mode, build, r):
            "argc": [0, 0], "args_os": [], "args": [], "look": [],
            "aux": {"uid": -1, "gid": -1, "random": [], "execfn": []},
            "kaux": {"uid": -2, "gid": -2, "random": [], "execfn": []},
-           "mono": [], "real": [], "reloc": []}
+           "mono": [], "real": [], "reloc": [], "has_aux": mode != "dyn-noaux"}
     st = r.get("status")
     rec["status"] = "exit0" if (st == "exit" and r.get("code") == 0) else (
         "crashed:sig%d" % r["code"] if st == "signal" else "timeout" if st == "timeout" else "exit:%s" % r.get("code"))
@@ -266,7 +268,7 @@ def judge(chk, recs, tag, harness_fatal=True):
 # anti-vacuity canaries: corrupted copies of accepted real records must all be rejected, each by the
 # clause that the corruption concerns
 # --------------------------------------------------------------------------------------------
-def canaries(chk, recs, bad):
+def make_canaries(recs, bad):
     import copy
     out = []
 
@@ -292,14 +294,16 @@ def canaries(chk, recs, bad):
         if c["look"][i]["key"]:
             c["look"][i]["var"] = {"k": "missing"}
             out.append(("lookup", "exact entry missed by var", c))
-    r = pick(lambda r: r["kaux"]["uid"] != r["kaux"]["gid"])
+    r = pick(lambda r: r["has_aux"] and r["kaux"]["uid"] != r["kaux"]["gid"])
     if r:
         c = copy.deepcopy(r); c["aux"]["uid"], c["aux"]["gid"] = c["aux"]["gid"], c["aux"]["uid"]
         out.append(("aux", "uid and gid swapped", c))
-    r = pick(lambda r: True)
+    r = pick(lambda r: r["has_aux"])
     if r:
         c = copy.deepcopy(r); c["aux"]["random"] = c["aux"]["random"][:15] + [(c["aux"]["random"][15] + 1) % 256]
         out.append(("aux", "last random byte differs", c))
+    r = pick(lambda r: True)
+    if r:
         c = copy.deepcopy(r); c["mono"][1] = [c["mono"][0][0] - 1, c["mono"][0][1]]
         out.append(("clock", "tiny-std reading before the first system-call reading", c))
         c = copy.deepcopy(r); c["real"][1] = [c["real"][2][0] + 5, 0]
@@ -310,6 +314,10 @@ def canaries(chk, recs, bad):
     if r:
         c = copy.deepcopy(r); c["st"][1] = c["st"][1] + 1 if c["st"][1] else 0
         out.append(("stack", "argv[0] pointer of the real stack moved by one byte", c))
+    return out
+
+
+def judge_canaries(chk, out):
     if not out:
         return 0
     verdicts = judge(chk, [c for _, _, c in out], "canary", harness_fatal=False)
@@ -489,7 +497,9 @@ EXTRA_ENVS = [
 def run(tier):
     chk = core.Check("C07", tier, "model_checking")
     core.run_cmd(["make", "-s", "-C", os.path.join(core.VERIF, "tools"), "bin/launch"])
-    leads = model_check(chk, tier)
+    quick = tier == "quick"
+    bg = concurrent.futures.ThreadPoolExecutor(max_workers=1)
+    model_future = bg.submit(model_check, chk, tier)
 
     bins = {}
     for mode, tmpl in MODES:
@@ -497,16 +507,17 @@ def run(tier):
             bdir = core.cargo_build(template=tmpl, release=rel)
             bins[(mode, "release" if rel else "debug")] = os.path.join(bdir, "startprobe")
 
-    quick = tier == "quick"
     envs_all = gen(chk, "env", 3)
     argvs = [v["argv"] for v in gen(chk, "argv", 0)]
     rng = random.Random(chk.seed)
     small = [v for v in envs_all if len(v["env"]) <= 2]
     big = [v for v in envs_all if len(v["env"]) == 3]
     if quick:
-        big = rng.sample(big, 450)
+        big = rng.sample(big, 300)
     envs = [{"env": e, "look": None} for e in EXTRA_ENVS] + small + big
-    # leads from the model first
+    # leads from the model first (the model-level work ran next to builds and generation)
+    leads = model_future.result()
+    bg.shutdown()
     lead_cases = [{"argv": [[97]], "env": e, "keys": [k]} for e, k in leads]
     # every third run under other real ids than root's 0/0 (a uid/gid mix-up is invisible for 0/0)
     cases = lead_cases + [{"argv": argvs[i % len(argvs)], "env": v["env"], "keys": KEYS,
@@ -521,17 +532,17 @@ def run(tier):
         return (mode, build), run_binary(chk, mode, build, binary, cases, tier, stack_every=10 if quick else 25)
 
     results = {}
-    with concurrent.futures.ThreadPoolExecutor(max_workers=6) as ex:
+    with concurrent.futures.ThreadPoolExecutor(max_workers=8) as ex:
         for key, val in ex.map(work, sorted(bins.items())):
             results[key] = val
 
     nontrivial = set()
     lookups = 0
     stacks = 0
-    ncanary = 0
+    canary_recs = []
     for (mode, build), (recs, raws) in sorted(results.items()):
         bad = judge(chk, recs, "%s_%s" % (mode, build))
-        ncanary += canaries(chk, recs, bad)
+        canary_recs += make_canaries(recs, bad)
         chk.evaluations += len(recs)
         chk.traces += len(recs) - len(bad)
         for i, rec in enumerate(recs):
@@ -550,7 +561,7 @@ def run(tier):
                         "look": [[show(l["key"]), fmt_res(l["varu"])] for l in r["look"]], "mono": r["mono"]})
     chk.nontrivial = len(nontrivial)
     chk.exhaustive = not quick
-    vd = {"%s/%s" % k: vdso_used(b) for k, b in sorted(bins.items())}
+    vd = {"%s/%s" % k: vdso_used(b) for k, b in sorted(bins.items()) if k[0] != "dyn-noaux"}
     chk.extra["vdso"] = vd
     chk.extra["relocation_audit"] = {"%s/%s" % k: reloc_audit(b) for k, b in sorted(bins.items()) if k[0] == "spie"}
     for k, a in chk.extra["relocation_audit"].items():
@@ -558,18 +569,18 @@ def run(tier):
             core.log("LEAD (not a verdict): %s: %d relocated word(s) of the running static-PIE probe do not hold base + addend: %s" % (
                 k, a["unrelocated_count"], a["unrelocated_words"][:3]))
     chk.extra["model_leads_replayed"] = [{"env": [show(e) for e in e_], "key": show(k)} for e_, k in leads]
-    chk.extra["canaries_rejected"] = ncanary
+    chk.extra["canaries_rejected"] = judge_canaries(chk, canary_recs)
     chk.extra["execs"] = chk.evaluations
     chk.extra["lookups_judged"] = lookups
     chk.extra["real_initial_stacks_judged"] = stacks
     chk.extra["link_modes"] = [m for m, _ in MODES]
     chk.rule = ("TLC (StartupGen.tla) enumerates all environment blocks of <= 3 entries over 23 entries (5 names x 4 values incl. '=y', "
                 "'a=b', empty; 3 entries without '='; duplicates and prefix-related names included) - %s - and all 85 argument vectors "
-                "of length <= 3 over {'', 'a', 0xff, 200 bytes}; each block is exec'd (exact vectors, tools/launch) in 3 link modes x "
-                "debug/release with all 7 keys looked up through var and var_unix; every run is one record judged by TLC "
+                "of length <= 3 over {'', 'a', 0xff, 200 bytes}; each block is exec'd (exact vectors, tools/launch) in 3 link modes (+ dynamic PIE "
+                "without the aux feature) x debug/release with all 7 keys looked up through var and var_unix; every run is one record judged by TLC "
                 "(StartupJudge.tla: args, lookups, aux getters vs /proc/<pid>/auxv, clock order). non-trivial = distinct blocks that have a "
                 "duplicate name or two names one a proper prefix of the other" % (
-                    "all blocks of <= 2 entries plus a seeded sample of 450 3-entry blocks" if quick else "all 12 720 of them"))
+                    "all blocks of <= 2 entries plus a seeded sample of 300 3-entry blocks" if quick else "all 12 720 of them"))
     chk.assumptions = ["x86_64 only; kernel passes each aux key at most once",
                        "correctness of REL/RELA self-relocation is observed through 'the static-PIE probe starts and answers correctly'",
                        "for the empty key 'missing' is admitted next to the definitional answer (names are non-empty in POSIX)",
